@@ -7,6 +7,7 @@ Every obligation function takes (ctx, tier) and returns a dict
   cex      text of a violating path (events + path condition)
   detail / paths / opaque
 """
+import os
 import re
 
 import z3
@@ -83,6 +84,24 @@ def de_paths(ctx, first_loop=0):
     return _cache[key]
 
 
+def de_paths_any_iteration(ctx):
+    """paths of ONE iteration of the events loop of dispatch_events from an ARBITRARY state of everything an earlier
+    iteration may have left behind (all loop-carried locals are replaced by fresh symbolic values at the loop head):
+    what holds on these paths holds for the n-th event of a batch, not only for the first."""
+    key = ("de_any",)
+    if key not in _cache:
+        cfg = ctx.cfg(unroll=0, max_paths=50000)
+        f = ctx.fn(DE)
+        symex.parse_body(f)
+        heads = [b.name for b in f.blocks.values() if b.term and b.term[0] == "call"
+                 and re.search(r"Chain<.*> as Iterator>::next$", b.term[2])]
+        if len(heads) != 1:
+            raise Unsupported("events loop head not found")
+        cfg.havoc_heads = {(f.short(), heads[0])}
+        _cache[key] = ctx.run(DE, cfg=cfg)
+    return _cache[key]
+
+
 def de_paths_exit(ctx):
     """paths of dispatch_events for a batch of exactly ONE event: the events loop runs one iteration and the
     iterator is exhausted on the second visit of its head (bounded unwinding with the loop-exit assumption),
@@ -118,7 +137,7 @@ def pending_cell(e):
 def ob_pa2_reset(ctx, tier):
     """on EVERY path from a process_events event to the next iteration or to the function's return
     (error paths included) LoopInner::pending_action is reset with replace(Continue) exactly once"""
-    f, paths, cfg = de_paths(ctx)
+    f, paths, cfg = de_paths_any_iteration(ctx)
     failing, cex, witness = [], "", False
     for p in paths:
         pes = proc_events(p)
@@ -162,7 +181,7 @@ def _applied_action(p, pe, rep):
 def ob_pa_value(ctx, tier):
     """the action applied equals the source's explicit return unless that is Continue, in which
     case it is the deferred request; and it is applied to the dispatcher that was processed"""
-    f, paths, cfg = de_paths(ctx)
+    f, paths, cfg = de_paths_any_iteration(ctx)
     failing, cex, witness = [], "", False
     n = 0
     for p in paths:
@@ -213,7 +232,7 @@ def ob_disp1_receiver(ctx, tier):
     """process_events goes to the dispatcher stored in the slot looked up with
     forget_sub_id(event.token), with the event's own readiness and token, unmodified; when the
     lookup fails or the slot is vacant nothing is dispatched in that iteration"""
-    f, paths, cfg = de_paths(ctx)
+    f, paths, cfg = de_paths_any_iteration(ctx)
     failing, cex, witness = [], "", False
     for p in paths:
         nx, item = _item_of(p)
@@ -280,7 +299,7 @@ def ob_disp1_receiver(ctx, tier):
 def ob_tokens_forget_sub(ctx, tier):
     """every registration-level use of the event's token inside the iteration (slot lookups,
     RegistrationToken::new, TokenFactory::new) uses the token with its sub-id forgotten"""
-    f, paths, cfg = de_paths(ctx)
+    f, paths, cfg = de_paths_any_iteration(ctx)
     failing, cex, witness = [], "", False
     for p in paths:
         nx, item = _item_of(p)
@@ -302,7 +321,7 @@ def ob_rm3_removed_check(ctx, tier):
     """after the post-action: the processed dispatcher is unregistered exactly when its slot is
     vacant OR no longer resolves (removed and reused inside the callback); PostAction::Remove
     clears the slot through get_mut(reg_token)"""
-    f, paths, cfg = de_paths(ctx)
+    f, paths, cfg = de_paths_any_iteration(ctx)
     failing, cex, witness = [], "", False
     for p in paths:
         pes = proc_events(p)
@@ -360,7 +379,7 @@ def ob_rm3_removed_check(ctx, tier):
 def ob_re1_no_guards(ctx, tier):
     """no Ref/RefMut of poll, sources, lifecycle set or idles is alive while a source's
     process_events (and therefore any user callback) runs"""
-    f, paths, cfg = de_paths(ctx)
+    f, paths, cfg = de_paths_any_iteration(ctx)
     failing, cex, witness = [], "", False
     for p in paths:
         for pe in proc_events(p):
@@ -437,7 +456,9 @@ def ob_lc2_order(ctx, tier):
                 failing.append("synthetic_event_not_the_returned_readiness_token")
                 cex = cex or fmt_path(p)
             for q in polls:
-                to = q.args[1]
+                # the timeout is the Option<Duration> argument, wherever it sits in the parameter list
+                tos = [a for a in q.args[1:] if isinstance(a, Enum) and "Duration" in (a.ty or "")] or [q.args[-1]]
+                to = tos[0]
                 zero = isinstance(to, Enum) and to.disc == 1 and "ZERO" in repr(to.payloads.get("Some", {}).get(0))
                 if q.idx > b.idx and not zero:
                     failing.append("synthetic_event_does_not_force_zero_timeout")
@@ -1218,6 +1239,29 @@ def z3util_vars(e):
     return out
 
 
+def ping_close_writer(ctx):
+    """which Drop impl of the eventfd ping module writes to the eventfd, and is it the Drop of the payload that all
+    `Ping` clones share through an `Arc` (then `Arc` runs it exactly once, when the last clone goes, under any schedule)?
+    Returns (regex of that drop fn, receiver type, shared_through_arc: bool)."""
+    writers = []
+    for name, fn in ctx.fns.items():
+        m = re.search(r"^fn (?:\w+::)*eventfd::<impl at [^>]*>::drop\(_1: &mut (?:\w+::)*([A-Za-z_][A-Za-z0-9_]*)\)", fn.header)
+        if not m:
+            continue
+        rx = r"eventfd::<impl at [^>]*>::drop\(_1: &mut (?:\w+::)*%s\)" % m.group(1)
+        f, paths, cfg = run_fn(ctx, rx, inline=INL_PING, key="ping")
+        if any(calls(p, r"rustix::io::write") for p in paths):
+            writers.append((rx, m.group(1)))
+    if len(writers) != 1:
+        raise Unsupported("close writer of the ping source: %d Drop impls write to the eventfd" % len(writers))
+    rx, ty = writers[0]
+    src = open(os.path.join(ctx.src_dir, "sources", "ping", "eventfd.rs")).read()
+    m = re.search(r"pub struct Ping\s*\{(.*?)\n\}", src, flags=re.S)
+    body = re.sub(r"//[^\n]*", "", m.group(1)) if m else ""
+    shared = bool(re.search(r":\s*Arc<\s*%s\s*>" % re.escape(ty), body)) and ty != "Ping"
+    return rx, ty, shared
+
+
 # ---------------------------------------------------------------- C03: ping (MIR twin of K ping-0)
 def ob_ping(ctx, tier):
     """Ping::ping writes exactly the 8 bytes of 2u64 to the eventfd (EAGAIN swallowed); dropping the
@@ -1226,10 +1270,18 @@ def ob_ping(ctx, tier):
     Remove iff counter & 1 != 0, else Continue"""
     c = Chk()
     allp = []
-    for rx, val, nm in ((r"::ping\(_1: &eventfd::Ping\)", 2, "ping"), (r"::drop\(_1: &mut FlagOnDrop\)", 1, "close")):
+    close_rx, close_ty, shared = ping_close_writer(ctx)
+    if not shared:
+        # e.g. written from `Drop for Ping` behind a reference-count test: check-then-act, two last handles dropped
+        # concurrently can both skip it (or an unconditional write would close on every handle's drop)
+        c.failing.append("close_increment_not_sent_by_the_drop_of_the_arc_shared_payload[%s]" % close_ty)
+        c.cex = c.cex or "the eventfd close increment is written by Drop for %s, which is not the payload shared by all Ping clones through an Arc" % close_ty
+    for rx, val, nm in ((r"::ping\(_1: &eventfd::Ping\)", 2, "ping"), (close_rx, 1, "close")):
         f, paths, cfg = run_fn(ctx, rx, inline=INL_PING, key="ping")
         allp += paths
         for p in paths:
+            if nm == "close" and not shared and p.status == "return" and not calls(p, r"rustix::io::write"):
+                continue      # the conditional skip of a per-handle drop (already reported above)
             if p.status == "panic" and not calls(p, r"rustix::io::write"):
                 continue
             wr = calls(p, r"rustix::io::write")
@@ -1388,9 +1440,34 @@ def ob_exec_drop(ctx, tier):
         c.witness = True
         if p.status == "return" and not calls(p, r"mpsc::Receiver::<.*>::try_recv$"):
             c.fail("executor_drop_does_not_drain_the_queue", p)
-        wk = calls(p, r"Waker::wake$|catch_unwind")
-        futs = [e for e in calls(p, r"slab::IntoIter<.*> as Iterator>::next$")
-                if entails(ctx, p.pc, dz(e.ret.disc) == 1)[0]]
+        # every entry that still holds a future (Active::Future(waker)) gets its waker WOKEN -- not merely dropped: waking
+        # schedules the task, whose runnable the drain below then drops together with the future; a waker that is
+        # only dropped leaves the future alive for as long as a clone of it exists elsewhere
+        fut_i = ctx.enums.get("Active", ["Future", "Finished"]).index("Future")
+        nx = calls(p, r"slab::IntoIter<.*> as Iterator>::next$")
+        for k_, e in enumerate(nx):
+            if not entails(ctx, p.pc, dz(e.ret.disc) == 1)[0]:
+                continue
+            try:
+                ent = e.ret.payloads["Some"][0]
+                act = ent.fields[1] if isinstance(ent, Agg) else ent.fields.get(1)
+            except Exception:
+                continue
+            if act is None or not entails(ctx, p.pc, dz(disc_of(act)) == fut_i)[0]:
+                continue
+            end = nx[k_ + 1].idx if k_ + 1 < len(nx) else len(p.trace)
+            between = [x for x in p.trace[e.idx + 1:end] if x.kind == "call" and re.search(r"Waker::wake$|catch_unwind", x.callee)]
+            if not between and (k_ + 1 < len(nx) or p.status == "return"):
+                c.fail("pending_future_not_woken_when_the_executor_is_dropped", p)
+            for x in between:
+                if "catch_unwind" in x.callee:
+                    cl = [a for a in x.args if isinstance(a, Agg) and "closure@" in (a.ty or "")]
+                    fcl = cfg.closure_index.get(re.sub(r"^&(mut )?", "", cl[0].ty)) if cl and cfg.closure_index else None
+                    if fcl is None:
+                        raise Unsupported("closure passed to catch_unwind in Executor::drop not found")
+                    f4, p4, cfg4 = run_fn(ctx, re.escape(fcl.name) + r"\(")
+                    if not any(calls(q, r"Waker::wake$") for q in p4):
+                        c.fail("closure_run_for_a_pending_future_does_not_wake_it", p)
     f2, p2, cfg2 = run_fn(ctx, r"::schedule\(_1: &Scheduler<T>", unroll=0)
     for p in p2:
         if p.status != "return" or not isinstance(p.ret, Enum):
@@ -1677,6 +1754,33 @@ def ob_async_io(ctx, tier):
             c.fail("dispatcher_borrowed_while_reregistering", p)
         if p.ret is not rr[0].ret:
             c.fail("register_waker_hides_the_pollers_verdict", p)
+    # the dispatcher of the adapter: EVERY event it is handed stores the readiness and wakes the stored waker (taking it),
+    # whatever was stored before -- the registration is one-shot, so an event that is not passed on is lost for good
+    f, paths, cfg = run_fn(ctx, r"^fn io::<impl at [^>]*>::process_events\(_1: &RefCell<(io::)?IoDispatcher>")
+    allp += paths
+    li = fl.index("last_readiness")
+    for p in paths:
+        if p.status != "return":
+            continue
+        tk = [e for e in p.trace if e.kind == "take" and "Waker" in e.callee]
+        wk = calls(p, r"Waker::wake(_by_ref)?$")
+        if len(tk) != 1:
+            c.fail("io_event_does_not_take_the_stored_waker_exactly_once", p)
+            continue
+        had = entails(ctx, p.pc, dz(tk[0].ret.disc) == 1)[0]
+        if had and (len(wk) != 1 or ("@Some.0" not in repr(wk[0].args[0]))):
+            c.fail("io_event_does_not_wake_the_waiting_task", p)
+        if not had and wk:
+            c.fail("io_event_wakes_without_a_stored_waker", p)
+        try:
+            disp = [e for e in p.trace if e.kind == "borrow"][0].ret.pointee.value
+            lr = disp.fields.get(li)
+        except Exception:
+            lr = None
+        if lr is None or "a2" not in repr(lr):
+            c.fail("io_event_readiness_not_stored_for_the_task", p)
+        if not ret_is(p, 0) or not entails(ctx, p.pc, dz(ok_payload_disc(p.ret)) == 0)[0]:
+            c.fail("io_dispatcher_does_not_continue", p)
     for nm, want in (("poll_read", "READ"), ("poll_read_vectored", "READ"), ("poll_write", "WRITE"),
                      ("poll_write_vectored", "WRITE"), ("poll_flush", "WRITE")):
         f, paths, cfg = run_fn(ctx, r"^fn io::<impl at [^>]*>::%s\(_1: Pin<&mut Async" % nm)
@@ -2109,7 +2213,7 @@ def ob_poll(ctx, tier):
     next_expired(now) until it returns None -- whether or not fd events were collected -- and every
     expired entry becomes an event carrying the entry's token; a poller error is returned"""
     c = Chk()
-    f, paths, cfg = run_fn(ctx, r"::poll\(_1: &sys::Poll, _2: Option<Duration>", unroll=1)
+    f, paths, cfg = run_fn(ctx, r"^fn sys::<impl at [^>]*>::poll\(_1: &sys::Poll, ", unroll=1)
     for p in paths:
         if p.status == "panic":
             continue
@@ -2121,6 +2225,13 @@ def ob_poll(ctx, tier):
             continue
         if not nd or nd[0].idx > w[0].idx:
             c.fail("timeout_not_clamped_to_the_next_deadline", p)
+        # the time left until that deadline is measured against a clock reading taken HERE, between the lookup of the
+        # deadline and the wait (not one handed in by the caller, which is stale by whatever ran in between)
+        sd = [e for e in calls(p, r"Instant::(saturating_duration_since|duration_since|checked_duration_since)$") if e.idx < w[0].idx]
+        for e in sd:
+            nows = [x for x in calls(p, r"Instant::now$") if x.idx < e.idx]
+            if not nows or not any(a is nows[-1].ret or ("r%d:" % nows[-1].idx) in repr(a) for a in e.args):
+                c.fail("time_left_to_the_deadline_measured_against_a_stale_clock", p)
         c.witness = True
         werr = entails(ctx, p.pc, dz(w[0].ret.disc) == 1)[0]
         if werr:
